@@ -31,7 +31,7 @@ ASSUMPTIONS = [
     "numbers compared after rounding to 9 significant digits (cells are doubles) inside the multiset key, then to double precision row by row",
 ]
 
-HIST = gen.GenCfg(min_steps=6, max_steps=16, max_exchanges=2, max_holders=2, force_type_cycle=True, bulk_prob=0.15)
+HIST = gen.GenCfg(min_steps=6, max_steps=16, max_exchanges=2, max_holders=2, force_type_cycle=True, bulk_prob=0.15, fiat_columns=True)
 SHEET_OF_TYPE = {
     "sell": "Capital Gains",
     "gift": "Gifts",
